@@ -248,6 +248,39 @@ fn jobs(tier: Tier) -> Vec<C07Job> {
             batches: vec![vec![100; total]],
         });
     }
+    // Regime C: 4 MiB blocks hold several full blobs: a non-first blob whose index fills exactly at (or
+    // one entry around) a batch boundary, followed by more batches into the same block.
+    let totals: Vec<usize> = if tier == Tier::Quick { vec![350] } else { vec![350, 520] };
+    for total in totals {
+        for c1 in [169usize, 170, 171] {
+            for c2 in [339usize, 340, 341] {
+                let mut batches = vec![vec![100; c1], vec![100; c2 - c1]];
+                if total > 515 {
+                    for c3 in [509usize, 510, 511] {
+                        let mut b = batches.clone();
+                        b.push(vec![100; c3 - c2]);
+                        b.push(vec![100; total - c3]);
+                        v.push(C07Job {
+                            regime: 'C',
+                            block_size: 4 * 1024 * 1024,
+                            blocks: 2,
+                            flushers: 1,
+                            batches: b,
+                        });
+                    }
+                } else {
+                    batches.push(vec![100; total - c2]);
+                    v.push(C07Job {
+                        regime: 'C',
+                        block_size: 4 * 1024 * 1024,
+                        blocks: 2,
+                        flushers: 1,
+                        batches,
+                    });
+                }
+            }
+        }
+    }
     v
 }
 
@@ -324,7 +357,7 @@ impl Prop for C07Prop {
     }
 
     fn rule(&self) -> String {
-        "Engine V (FIFO schedule, sim IO), batches controlled exactly by the harness. Regime A (16 KiB blocks, 4 KiB blob index, at most 3 data pages per block): every sequence of up to 4 (quick) / 6 (thorough) entries over serialized lengths {100 B, exactly 1 page, 1 page + 1 byte, exactly 2 pages, exactly 3 pages = the per-entry maximum} x every way of cutting it into <= 4 batches x 1-2 flushers. Regime B (1 MiB blocks, so the 170-slot blob index fills before the block): entry counts around 170/255/340 with the batch cut at every position within +-1 of each boundary. After every batch the partition files are parsed by the independent reader D: page alignment, containment, disjointness of entries and index pages, slot/header agreement, checksums, sequence monotonicity, and the scan must reconstruct exactly the (hash, length) multiset enqueued, in enqueue order per block. Then memory is emptied and every key is read back, and again after a graceful reopen. A case is one batch sequence.".into()
+        "Engine V (FIFO schedule, sim IO), batches controlled exactly by the harness. Regime A (16 KiB blocks, 4 KiB blob index, at most 3 data pages per block): every sequence of up to 4 (quick) / 6 (thorough) entries over serialized lengths {100 B, exactly 1 page, 1 page + 1 byte, exactly 2 pages, exactly 3 pages = the per-entry maximum} x every way of cutting it into <= 4 batches x 1-2 flushers. Regime B (1 MiB blocks, so the 170-slot blob index fills before the block): entry counts around 170/255/340 with the batch cut at every position within +-1 of each boundary. Regime C (4 MiB blocks holding several full blobs): 350 (520) one-page entries cut into batches at every combination of positions within +-1 of the 170 / 340 (/ 510) index boundaries, so that non-first blobs fill exactly at, just before and just after a batch boundary. After every batch the partition files are parsed by the independent reader D: page alignment, containment, disjointness of entries and index pages, slot/header agreement, checksums, sequence monotonicity, and the scan must reconstruct exactly the (hash, length) multiset enqueued, in enqueue order per block. Then memory is emptied and every key is read back, and again after a graceful reopen. A case is one batch sequence.".into()
     }
 
     fn assumptions(&self) -> Vec<String> {
@@ -336,7 +369,7 @@ impl Prop for C07Prop {
 
     fn bounds(&self, tier: Tier) -> Value {
         let js = jobs(tier);
-        json!({"batch_sequences": js.len(), "regime_A": js.iter().filter(|j| j.regime == 'A').count(), "regime_B": js.iter().filter(|j| j.regime == 'B').count()})
+        json!({"batch_sequences": js.len(), "regime_A": js.iter().filter(|j| j.regime == 'A').count(), "regime_B": js.iter().filter(|j| j.regime == 'B').count(), "regime_C": js.iter().filter(|j| j.regime == 'C').count()})
     }
 
     fn vacuity(&self, _tier: Tier, r: &ShardResult) -> Vec<String> {
